@@ -175,6 +175,30 @@ func raise(kind string) {
 	panic(panicValue(kind))
 }
 
+// showsToken: the text contains the token as it is or, for a token outside
+// ASCII, in one of the ASCII-safe spellings a page may choose (\uXXXX escapes,
+// numeric character references in decimal or hexadecimal).
+func showsToken(text, token string) bool {
+	if strings.Contains(text, token) {
+		return true
+	}
+	ascii := true
+	var esc, dec, hex strings.Builder
+	for _, r := range token {
+		if r > 127 {
+			ascii = false
+		}
+		fmt.Fprintf(&esc, "\\u%04x", r)
+		fmt.Fprintf(&dec, "&#%d;", r)
+		fmt.Fprintf(&hex, "&#x%x;", r)
+	}
+	if ascii {
+		return false
+	}
+	low := strings.ToLower(text)
+	return strings.Contains(low, esc.String()) || strings.Contains(text, dec.String()) || strings.Contains(low, hex.String())
+}
+
 // panicToken is a piece of text that any reasonable rendering of the panic
 // value contains (the statement does not fix the formatting).
 func panicToken(kind string) string {
@@ -713,11 +737,11 @@ func checkCase(c Case) (out evid.Outcome) {
 			if token == "" && !strings.Contains(strings.ToUpper(tail), "PANIC") {
 				return fail(out, "dev-detail", "development mode: body tail %q is not a panic page; %s", clip(tail), desc)
 			}
-			if token != "" && !strings.Contains(tail, token) {
+			if token != "" && !showsToken(tail, token) {
 				return fail(out, "dev-detail", "development mode: body tail %q does not show the panic value (looking for %q); %s", clip(tail), token, desc)
 			}
 		} else {
-			if (token != "" && strings.Contains(tail, token)) || strings.Contains(tail, "c15_test.go") || strings.Contains(tail, "goroutine ") {
+			if (token != "" && showsToken(tail, token)) || strings.Contains(tail, "c15_test.go") || strings.Contains(tail, "goroutine ") {
 				return fail(out, "detail-leak", "%s mode: the body shows panic detail: %q; %s", c.Env, clip(tail), desc)
 			}
 		}
